@@ -31,6 +31,7 @@ const (
 // stack is one running authenticator with its e-mail rule as the documentation reads it.
 type stack struct {
 	idx   int
+	prov  string // okta (sut.NewAuthStack: the real NewAuthenticatorMux) | google | cognito (mountProvider)
 	kind  string // domains | domains-star | addresses | addresses-star
 	rules oracle.Rules
 	as    *sut.AuthStack
@@ -58,16 +59,25 @@ func mixCase(r *rand.Rand, s string) string {
 	return string(b)
 }
 
-// genStacks builds the authenticators: the four rule kinds, cyclically, with random names.
+// genStacks builds the authenticators: the first half Okta (the four rule kinds, cyclically), then a
+// quarter Google and a quarter Cognito (rule kinds rotating with the seed), with random names.
 func genStacks(rep *vh.Report, env vh.Env, n int) []*stack {
 	var out []*stack
 	for ci := 0; ci < n; ci++ {
 		r := vh.CaseRNG(env.Seed, "c09-config", ci)
-		st := &stack{idx: ci}
+		st := &stack{idx: ci, prov: "okta"}
+		kindSel := ci
+		if ci >= n/2 {
+			st.prov = "google"
+			if ci >= n/2+n/4 {
+				st.prov = "cognito"
+			}
+			kindSel = ci + int(env.Seed%4+4)
+		}
 		st.sharedHead = "eyJraWQiOiJ" + b64word(r, 61) + ".eyJ" + b64word(r, 120)
 		st.sharedTail = b64word(r, 120) + "." + b64word(r, 43)
 		var o sut.AuthOpts
-		switch ci % 4 {
+		switch kindSel % 4 {
 		case 0:
 			st.kind = "domains"
 			d := []string{word(r, 5) + ".test"}
@@ -89,7 +99,13 @@ func genStacks(rep *vh.Report, env vh.Env, n int) []*stack {
 			st.kind = "addresses-star"
 			o.EmailAddresses, st.rules.Addresses = []string{"*"}, []string{"*"}
 		}
-		as, err := sut.NewAuthStack(o)
+		var as *sut.AuthStack
+		var err error
+		if st.prov == "okta" {
+			as, err = sut.NewAuthStack(o)
+		} else {
+			as, err = mountProvider(st.prov, o)
+		}
 		if err != nil {
 			rep.Inconclusive("authenticator stack did not start: " + err.Error())
 			continue
@@ -205,17 +221,17 @@ func queryCode(loc string) (code string, u *url.URL) {
 func TestProp(t *testing.T) {
 	env := vh.GetEnv()
 	rep := vh.NewReport("C09", "exploration")
-	rep.Rule("part A: strided enumeration of cookie-class{absent,garbage,other-key,code-key,truncated,genuine} x lifetime{past,future} x token-expiry{past,future} x refresh-token{present,absent} x introspect-answer(11 classes) x refresh-answer(10 classes) x e-mail-class(9) x rule-kind(4) against /sign_in; part B: callback state-nonce/CSRF-cookie combinations (own, cross-browser, absent, altered, prefix either way, empty, malformed, never-issued, other authenticator's) x IdP token/userinfo answers x e-mail rule over two independent /start flows; part D (concurrent): groups of 2-3 simultaneous /sign_in requests on one authenticator whose access tokens (validate path) or refresh tokens (refresh path) are long JWT-like strings related by common prefix / common suffix / one middle byte / letter case / one a prefix of the other / unrelated, same or different e-mails, every live/revoked assignment and order; the first request's IdP answer is held until the others are in flight; part H (histories): 2-6 /sign_in visits of one browser that always presents the cookie the previous response re-issued, the IdP's answer flipping between visits, virtual gaps from {0,5s,30s,59s,2min,10min,61min}, first cookie minted with zero/past/future ValidDeadline and GracePeriodStart; every visit that ends in a code must show a confirming IdP call for that token in the log delta of that visit; part C: sequences of 3-10 sign-ins in virtual time (cookie re-sealing) across refreshes until the lifetime passes. distinct = the tuple of dimensions that matter for the case (irrelevant IdP answers are left out), counted only when the authenticator answered")
+	rep.Rule("part A: strided enumeration of cookie-class{absent,garbage,other-key,code-key,truncated,genuine} x lifetime{past,future} x token-expiry{past,future} x refresh-token{present,absent} x validate-answer(13 classes: 200 valid, 200 negative/empty/malformed body, 400 revoked/other, 401, 403, 429, 500, 503, dropped) x refresh-answer(13 classes) x e-mail-class(9) x rule-kind(4) x provider{okta via NewAuthenticatorMux, google and cognito via NewAuthenticator+SetProvider} against /sign_in; part B: callback state-nonce/CSRF-cookie combinations (own, cross-browser, absent, altered, prefix either way, empty, malformed, never-issued, other authenticator's) x IdP token/userinfo answers x e-mail rule over two independent /start flows; part D (concurrent): groups of 2-3 simultaneous /sign_in requests on one authenticator whose access tokens (validate path) or refresh tokens (refresh path) are long JWT-like strings related by common prefix / common suffix / one middle byte / letter case / one a prefix of the other / unrelated, same or different e-mails, every live/revoked assignment and order; the first request's IdP answer is held until the others are in flight; part H (histories): 2-6 /sign_in visits of one browser that always presents the cookie the previous response re-issued, the IdP's answer flipping between visits, virtual gaps from {0,5s,30s,59s,2min,10min,61min}, first cookie minted with zero/past/future ValidDeadline and GracePeriodStart; every visit that ends in a code must show a confirming IdP call for that token in the log delta of that visit; part C: sequences of 3-10 sign-ins in virtual time (cookie re-sealing) across refreshes until the lifetime passes. distinct = the tuple of dimensions that matter for the case (irrelevant IdP answers are left out), counted only when the authenticator answered")
 	rep.Assume("the fake IdP answers exactly as scripted and logs every call; tokens are unique per case, so sso's request coalescing never merges two cases")
-	rep.Assume("ground truth 'IdP confirmed' = scripted 200 {active:true} to introspect when no refresh is due, or a scripted well-formed 200 with a non-empty access token to the refresh grant when it is due and the session has a refresh token; a successful refresh counts as acceptance of the new token")
+	rep.Assume("ground truth 'IdP confirmed' = scripted positive answer to the provider's validation call (Okta introspect 200 {active:true}; Google tokeninfo / Cognito userInfo 200 describing the token; for the latter two a 200 with an error/empty body - Google: any unread garbage - is a counted don't-care) when no refresh is due, or a scripted well-formed 200 with a non-empty access token to the refresh grant when it is due and the session has a refresh token; a successful refresh counts as acceptance of the new token")
 	rep.Assume("concurrent groups: 'overlapped' is read off the fake IdP's own sequence numbers (the follower's call started before the first one's ended), never off the wall clock; a group that did not overlap is only not counted")
 	rep.Assume("virtual time = re-sealing cookies with shifted deadlines; every generated instant is >= 60 s away from the deadline it is compared with")
 
-	nStacks := env.Pick(4, 12)
+	nStacks := env.Pick(8, 16)
 	stacks := genStacks(rep, env, nStacks)
 	defer func() {
 		for _, st := range stacks {
-			st.as.Close()
+			st.close()
 		}
 	}()
 	other, err := sut.NewAuthStack(sut.AuthOpts{})
@@ -230,31 +246,41 @@ func TestProp(t *testing.T) {
 	replaying := false
 	if only, skip := env.Only(streamSignIn); !skip {
 		replaying = replaying || only >= 0
+		t0 := time.Now()
 		runSignIn(rep, env, stacks, other, only)
+		rep.Extra("wall_signin_s", time.Since(t0).Seconds())
 	} else {
 		replaying = true
 	}
 	if only, skip := env.Only(streamCallback); !skip {
 		replaying = replaying || only >= 0
-		runCallback(rep, env, stacks, other, only)
+		t0 := time.Now()
+		runCallback(rep, env, stacks[:nStacks/2], other, only) // the Okta authenticators (the other providers' callbacks: C10)
+		rep.Extra("wall_callback_s", time.Since(t0).Seconds())
 	} else {
 		replaying = true
 	}
 	if only, skip := env.Only(streamConcurrent); !skip {
 		replaying = replaying || only >= 0
+		t0 := time.Now()
 		runConcurrent(rep, env, stacks, only)
+		rep.Extra("wall_concurrent_s", time.Since(t0).Seconds())
 	} else {
 		replaying = true
 	}
 	if only, skip := env.Only(streamHistory); !skip {
 		replaying = replaying || only >= 0
+		t0 := time.Now()
 		runHistory(rep, env, stacks, only)
+		rep.Extra("wall_history_s", time.Since(t0).Seconds())
 	} else {
 		replaying = true
 	}
 	if only, skip := env.Only(streamLifetime); !skip {
 		replaying = replaying || only >= 0
+		t0 := time.Now()
 		runLifetime(rep, env, stacks, only)
+		rep.Extra("wall_lifetime_s", time.Since(t0).Seconds())
 	} else {
 		replaying = true
 	}
@@ -286,6 +312,22 @@ func TestProp(t *testing.T) {
 			"concurrent_overlap_path_validate", "concurrent_overlap_path_refresh", "concurrent_code_via_validate", "concurrent_code_via_refresh",
 		} {
 			rep.Floor(f, 5)
+		}
+		for _, prov := range []string{"okta", "google", "cognito"} {
+			rep.Floor("signin_"+prov+"_code_via_validate", 5)
+			rep.Floor("signin_"+prov+"_code_via_refresh", 5)
+			rep.Floor("history_"+prov+"_code_via_validate", 3)
+			rep.Floor("history_"+prov+"_code_via_refresh", 2)
+			for ci, c := range validateClasses {
+				if _, dc := validateVerdict(prov, ci); !c.good && !dc {
+					rep.Floor("signin_"+prov+"_refused_validate_"+c.name, 1)
+				}
+			}
+			for _, c := range refreshClasses {
+				if !c.good {
+					rep.Floor("signin_"+prov+"_refused_refresh_"+c.name, 1)
+				}
+			}
 		}
 		for _, rel := range relations {
 			rep.Floor("concurrent_overlap_"+rel, 5)
